@@ -9,7 +9,7 @@ open Coraza
 
 /-- Close: `tx.variables.reset()` empties every collection; nothing else is reset there -/
 def closeTx (tx : Tx) : Tx :=
-  { tx with argsGet := {}, argsPost := {}, argsPath := {}, reqHeaders := {}, txc := {}, matchedVars := {},
+  { tx with rl := {}, argsGet := {}, argsPost := {}, argsPath := {}, reqHeaders := {}, txc := {}, matchedVars := {},
             matchedVar := [], matchedVarName := [], highestSeverity := 0, respStatus := [] }
 
 /-- newTransaction on the object the pool hands back: the listed assignments, then the
